@@ -337,8 +337,10 @@ def run_ctor(case):
         evals += 1
         if have != 1:
             fails.append(_fail("field from_string(xs)(xs) == 1", {"xs": "".join(x)}, have, 1))
-    for k in (0, 1, 2):
-        for Xs in itertools.combinations(strs, k):
+    strs3 = strs + [("a", "b", "a"), ("a", "a", "b")]
+    for k in (0, 1, 2, 3):
+        # every ORDER of every set of strings (a member may be a proper prefix of an earlier or later one)
+        for Xs in itertools.permutations(strs3 if k <= 2 else [x for x in strs3 if x[:1] == ("a",)], k):
             for form in (list(Xs), ["".join(x) for x in Xs]):
                 m = _call(lambda: base.WFSA.from_strings(form, Poly))
                 evals += 1
